@@ -56,7 +56,8 @@ def gen_case(rng):
             })
         procs.append(its)
     pokes = [[rng.choice([0.5, 1, 2, 3, 4, 5, 6]), rng.randrange(nproc)] for _ in range(rng.randint(0, 4))]
-    rogue = [[rng.choice([1, 2, 3, 4]), rng.randrange(nproc)] for _ in range(rng.randint(0, 2))]
+    rogue = [[rng.choice([1, 2, 3, 4]), rng.randrange(nproc), rng.choice(["nonuser", "nonuser", "holder", "wrong-resource"])]
+             for _ in range(rng.randint(0, 3))]
     return {"kind": kind, "capacity": rng.randint(1, 4), "procs": procs, "pokes": sorted(pokes), "rogue": sorted(rogue)}
 
 
@@ -171,6 +172,7 @@ def run_case(case, stats):
     env = Env()
     kind, cap = case["kind"], case["capacity"]
     res = {"Resource": Resource, "PriorityResource": PriorityResource, "PreemptiveResource": PreemptiveResource}[kind](env, cap)
+    other = type(res)(env, 1)          # a second resource of the same class that nobody requests
     viol = []
     sh = Shadow(res, kind, cap, viol, stats, env)
     env.post_hooks.append(lambda e: sh.sync("step"))
@@ -336,11 +338,43 @@ def run_case(case, stats):
     def rogue():
         # a process that releases other people's (possibly waiting) requests: "releasing a non-user is harmless"
         last = 0
-        for t, pid in case["rogue"]:
+        for ent in case["rogue"]:
+            t, pid = ent[0], ent[1]
+            mode = ent[2] if len(ent) > 2 else "nonuser"
             if t > last:
                 yield env.timeout(t - last)
                 last = t
             sh.sync("pre-rogue")
+            if mode != "nonuser":
+                cands = [r for r in sh.reqs.values() if r["state"] == "granted" and not r["evicted"] and r["req"] in res.users]
+                if not cands:
+                    continue
+                rec = cands[pid % len(cands)]
+                users0 = list(res.users)
+                if mode == "wrong-resource":
+                    # released through ANOTHER resource object: the request is not a user there -> harmless, and
+                    # certainly without any effect on the resource that granted it
+                    try:
+                        other.release(rec["req"])
+                    except Exception as e:
+                        sh.bad("nonuser-release-raised", "releasing a non-user raised", repr(e))
+                    stats["releases_through_another_resource"] += 1
+                    if list(res.users) != users0 or other.users:
+                        sh.bad("nonuser-release-changed-users[through-another-resource]",
+                               "releasing a request through a resource it does not use changed the users of a resource", rec["state"])
+                else:
+                    # a supervisor releases the slot on behalf of its holder: a release like any other -- the slot
+                    # passes to the next waiter within the same instant (checked by sync / the advance hook)
+                    rec["state"] = "released"
+                    try:
+                        res.release(rec["req"])
+                    except Exception as e:
+                        sh.bad("release-raised", "releasing a user's request from another process raised", repr(e))
+                    stats["releases_by_another_process"] += 1
+                    if rec["req"] in res.users:
+                        sh.bad("released-request-still-user", "a released request is still a user", "released by another process")
+                sh.sync("rogue")
+                continue
             cands = [r for r in sh.reqs.values() if r["state"] in ("waiting", "cancelled", "released", "evicted")]
             if not cands:
                 continue
@@ -383,7 +417,8 @@ def run_case(case, stats):
 
 KEYS = ("grants", "advance_checks", "evictions", "refused_evictions", "cancels_waiting", "cancel_noop_granted",
         "double_releases", "nonuser_releases", "with_exits", "preempted_causes_checked", "capacity_checks",
-        "grants_with_others_waiting", "pokes", "evictions_among_equal_keys")
+        "grants_with_others_waiting", "pokes", "evictions_among_equal_keys", "releases_by_another_process",
+        "releases_through_another_resource")
 
 
 def one_case(ctx, case):
